@@ -176,259 +176,141 @@ def P18(m, R):
                         else:
                             stmts.append(s)
                 collect(act.body)
-                for s in stmts:
-                    if isinstance(s, ast.Assign) and isinstance(s.targets[0], ast.Name):
-                        nme = s.targets[0].id
-                        tv = norm(s.value).replace(' ', '')
-                        nn = num_name or 'num'
-                        if tv in ('math.floor(%s/2)' % nn, 'math.floor((%s)/2)' % nn, '%s//2' % nn, '(%s)//2' % nn, 'int(%s/2)' % nn, 'int((%s)/2)' % nn):
-                            env[nme] = Sym({'left': 1})
-                        else:
-                            env[nme] = _sym_eval(s.value, env)
-                        if nme != num_name and 'right' not in nme and env[nme] == Sym({'left': 1}):
-                            pass
-                    elif (isinstance(s, ast.Assign) and norm(s.targets[0]) == txt) or (isinstance(s, ast.AugAssign) and norm(s.target) == txt):
-                        val = s.value if isinstance(s, ast.Assign) else ast.BinOp(left=s.target, op=ast.Add(), right=s.value)
-                        total = Sym(c=0)
-                        before_text = Sym(c=0)
-                        seen_text = False
-                        for p in flatten_add(val):
-                            if norm(p) == txt:
-                                total = total + Sym({'old_len': 1})
-                                seen_text = True
-                            elif isinstance(p, ast.BinOp) and isinstance(p.op, ast.Mult):
-                                cnt = p.right if norm(p.left) == fill else p.left
-                                c = _sym_eval(cnt, env)
-                                total = total + c
-                                if not seen_text:
-                                    before_text = before_text + c
+                outcomes = []
+
+                def zero(sym_name, state):
+                    def z(v):
+                        if isinstance(v, Sym):
+                            t_ = dict(v.t)
+                            t_.pop(sym_name, None)
+                            return Sym(t_, v.c)
+                        return v
+                    return {'env': {k_: z(v_) for k_, v_ in state['env'].items()}, 'keys': {k_: z(v_) for k_, v_ in state['keys'].items()},
+                            'left': z(state['left']), 'newlen': z(state['newlen']), 'problems': list(state['problems']),
+                            'region': state['region'] + ['%s = 0' % sym_name], 'zeroed': state['zeroed'] | {sym_name}}
+
+                def run_stmts(stmts, state):
+                    env = state['env']
+                    keys = state['keys']
+                    for i_, s in enumerate(stmts):
+                        if isinstance(s, ast.If):
+                            fv_ = eval_guard(s.test, flag_valuation({'extend_formatting': extend}))
+                            if fv_ is not None:
+                                st2_ = {'env': dict(env), 'keys': dict(keys), 'left': state['left'], 'newlen': state['newlen'], 'problems': list(state['problems']),
+                                        'region': list(state['region']), 'zeroed': set(state['zeroed'])}
+                                run_stmts((s.body if fv_ else s.orelse) + stmts[i_ + 1:], st2_)
+                                return
+                        if isinstance(s, ast.If) and isinstance(s.test, ast.Compare) and len(s.test.ops) == 1 and isinstance(const_val(s.test.comparators[0], None), int) and \
+                                not (isinstance(s.test.ops[0], ast.In)):
+                            # a guard on a count that is >= 0 by construction: positive / zero regions
+                            try:
+                                v_ = _sym_eval(s.test.left, env)
+                            except Undecided:
+                                v_ = None
+                            k0 = const_val(s.test.comparators[0])
+                            if v_ is not None and len(v_.t) == 1 and v_.c == 0 and list(v_.t.values()) == [1]:
+                                sym_name = list(v_.t)[0]
+                                op_ = s.test.ops[0]
+                                pos_true = {ast.Gt: k0 <= 0, ast.GtE: k0 <= 1, ast.NotEq: k0 == 0, ast.Eq: False if k0 == 0 else None, ast.LtE: False if k0 == 0 else None,
+                                            ast.Lt: False if k0 <= 1 else None}.get(type(op_))
+                                zero_true = {ast.Gt: 0 > k0, ast.GtE: 0 >= k0, ast.NotEq: 0 != k0, ast.Eq: 0 == k0, ast.LtE: 0 <= k0, ast.Lt: 0 < k0}.get(type(op_))
+                                if pos_true is None:
+                                    raise Undecided('guard %s' % short(s.test))
+                                rest_ = stmts[i_ + 1:]
+                                st_pos = {'env': dict(env), 'keys': dict(keys), 'left': state['left'], 'newlen': state['newlen'], 'problems': list(state['problems']),
+                                          'region': state['region'] + ['%s > 0' % sym_name], 'zeroed': set(state['zeroed'])}
+                                run_stmts((s.body if pos_true else s.orelse) + rest_, st_pos)
+                                st_zero = zero(sym_name, state)
+                                run_stmts((s.body if zero_true else s.orelse) + rest_, st_zero)
+                                return
+                        if isinstance(s, ast.Assign) and isinstance(s.targets[0], ast.Name):
+                            nme = s.targets[0].id
+                            tv = norm(s.value).replace(' ', '')
+                            nn = num_name or 'num'
+                            if tv in ('math.floor(%s/2)' % nn, 'math.floor((%s)/2)' % nn, '%s//2' % nn, '(%s)//2' % nn, 'int(%s/2)' % nn, 'int((%s)/2)' % nn):
+                                env[nme] = Sym({'left': 1})
                             else:
-                                raise Undecided('text part %s' % norm(p))
-                        newlen = total
-                        left = before_text
-                        env['len(%s)' % txt] = newlen
-                    elif isinstance(s, ast.If) and isinstance(s.test, ast.Compare) and isinstance(s.test.ops[0], ast.In) and norm(s.test.comparators[0]) == tbl:
-                        # if B in table: table[A] = table.pop(B)
-                        B = _sym_eval(s.test.left, env)
-                        mv = [x for x in s.body if isinstance(x, ast.Assign) and isinstance(x.targets[0], ast.Subscript) and norm(x.targets[0].value) == tbl]
-                        if len(mv) != 1 or call_name(mv[0].value) != 'pop' or norm(mv[0].value.args[0]) != norm(s.test.left):
-                            raise Undecided('relocation %s' % short(s))
-                        A = _sym_eval(mv[0].targets[0].slice, env)
-                        hit = [c for c, kk in keys.items() if kk == B]
-                        if not hit:
-                            problems.append('the point looked up under key %r is none of origin / interior / end at that moment (end is at %r): '
-                                            'the end marker is not found, or an interior point is moved instead' % (B, keys['end']))
-                        for c in hit:
-                            keys[c] = A
-                    elif isinstance(s, ast.Expr) and isinstance(s.value, ast.Call) and call_name(s.value) == '_shift_settings_idx':
-                        b, _ = bind_call(s.value, sh)
-                        n = _sym_eval(b[num], env)
-                        kp = b.get(keep)
-                        kpv = eval_guard(kp, flag_valuation({'extend_formatting': extend})) if kp is not None else None
-                        if kpv is None:
-                            raise Undecided('keep_origin argument %s' % norm(kp))
-                        for c in keys:
-                            if c == 'origin' and kpv and keys[c] == Sym(c=0):
-                                continue
-                            keys[c] = keys[c] + n
-                    elif isinstance(s, ast.Expr) and isinstance(s.value, ast.Constant):
-                        continue
-                    else:
-                        raise Undecided('statement %s' % short(s))
+                                env[nme] = _sym_eval(s.value, env)
+                            if nme != num_name and 'right' not in nme and env[nme] == Sym({'left': 1}):
+                                pass
+                        elif (isinstance(s, ast.Assign) and norm(s.targets[0]) == txt) or (isinstance(s, ast.AugAssign) and norm(s.target) == txt):
+                            val = s.value if isinstance(s, ast.Assign) else ast.BinOp(left=s.target, op=ast.Add(), right=s.value)
+                            total = Sym(c=0)
+                            before_text = Sym(c=0)
+                            seen_text = False
+                            for p in flatten_add(val):
+                                if norm(p) == txt:
+                                    total = total + Sym({'old_len': 1})
+                                    seen_text = True
+                                elif isinstance(p, ast.BinOp) and isinstance(p.op, ast.Mult):
+                                    cnt = p.right if norm(p.left) == fill else p.left
+                                    c = _sym_eval(cnt, env)
+                                    total = total + c
+                                    if not seen_text:
+                                        before_text = before_text + c
+                                else:
+                                    raise Undecided('text part %s' % norm(p))
+                            state['newlen'] = total
+                            state['left'] = before_text
+                            env['len(%s)' % txt] = state['newlen']
+                        elif isinstance(s, ast.If) and isinstance(s.test, ast.Compare) and isinstance(s.test.ops[0], ast.In) and norm(s.test.comparators[0]) == tbl:
+                            # if B in table: table[A] = table.pop(B)
+                            B = _sym_eval(s.test.left, env)
+                            mv = [x for x in s.body if isinstance(x, ast.Assign) and isinstance(x.targets[0], ast.Subscript) and norm(x.targets[0].value) == tbl]
+                            if len(mv) != 1 or call_name(mv[0].value) != 'pop' or norm(mv[0].value.args[0]) != norm(s.test.left):
+                                raise Undecided('relocation %s' % short(s))
+                            A = _sym_eval(mv[0].targets[0].slice, env)
+                            hit = [c for c, kk in keys.items() if kk == B]
+                            if not hit:
+                                state['problems'].append('the point looked up under key %r is none of origin / interior / end at that moment (end is at %r): '
+                                                'the end marker is not found, or an interior point is moved instead' % (B, keys['end']))
+                            for c in hit:
+                                keys[c] = A
+                        elif isinstance(s, ast.Expr) and isinstance(s.value, ast.Call) and call_name(s.value) == '_shift_settings_idx':
+                            b, _ = bind_call(s.value, sh)
+                            n = _sym_eval(b[num], env)
+                            kp = b.get(keep)
+                            kpv = eval_guard(kp, flag_valuation({'extend_formatting': extend})) if kp is not None else None
+                            if kpv is None:
+                                raise Undecided('keep_origin argument %s' % norm(kp))
+                            for c in keys:
+                                if c == 'origin' and kpv and keys[c] == Sym(c=0):
+                                    continue
+                                keys[c] = keys[c] + n
+                        elif isinstance(s, ast.Expr) and isinstance(s.value, ast.Constant):
+                            continue
+                        else:
+                            raise Undecided('statement %s' % short(s))
+
+                    outcomes.append(state)
+                run_stmts(stmts, {'env': env, 'keys': keys, 'left': left, 'newlen': newlen, 'problems': problems, 'region': [], 'zeroed': set()})
             except Undecided as e:
                 R.undecided(f, act, str(e), construct=cons)
                 continue
-            if newlen is None:
+            if not outcomes or any(o_['newlen'] is None for o_ in outcomes):
                 R.undecided(f, act, 'text assembly not found', construct=cons)
                 continue
-            want = {'interior': Sym({'k': 1}) + left}
-            if extend:
-                want['origin'] = Sym(c=0)
-                want['end'] = newlen
-            else:
-                want['origin'] = left
-                want['end'] = Sym({'old_len': 1}) + left
-            for c in ('origin', 'interior', 'end'):
-                if keys[c] != want[c]:
-                    problems.append('%s point ends at key %r, expected %r' % (c, keys[c], want[c]))
-            R.check(not problems, f, act, 'origin -> %r, k -> %r, end -> %r (new length %r)' % (want['origin'], want['interior'], want['end'], newlen),
-                    '; '.join(problems), construct=cons)
-
-
-# ----------------------------------------------------------------------------------------------------------------------
-@rule('P24', 'restart-completeness: when already-active settings are restarted at a point, the whole continuing set is restarted and it '
-             'lands below the point\'s own starters', floor=2)
-def P24(m, R):
-    ro = m.roles
-    # (a) apply_formatting, topmost=False
-    f = m.fn('AnsiString.apply_formatting')
-    cons = 'apply_formatting restart'
-    blk = next((n for n in f.body if isinstance(n, ast.If) and eval_guard(n.test, flag_valuation({'topmost': False})) is True
-                and eval_guard(n.test, flag_valuation({'topmost': True})) is False), None)
-    if blk is None:
-        R.viol(f, f.node, 'topmost=False has no restart block: continuing settings would stay below the new ones', construct=cons)
-    else:
-        from ..shapes import local_aliases, canon
-        al = local_aliases(f)
-        problems = []
-        acc = None
-        filt = None       # the selection condition of the restart list
-        src_ok = None
-        # form 1: acc = []; for s in ansi_settings_at(start): if <cond>: acc.append(s)
-        for s_ in blk.body:
-            if isinstance(s_, ast.Assign) and isinstance(s_.value, ast.List) and not s_.value.elts:
-                acc = norm(s_.targets[0])
-        lp = next((s_ for s_ in blk.body if isinstance(s_, ast.For)), None)
-        if acc is not None and lp is not None:
-            it = subst(lp.iter, {k: v for k, v in al.items()})
-            srcs = {norm(x.targets[0]): x.value for x in blk.body if isinstance(x, ast.Assign) and call_name(x.value) == 'ansi_settings_at'}
-            itv = srcs.get(norm(lp.iter), lp.iter)
-            src_ok = call_name(itv) == 'ansi_settings_at' and [norm(a) for a in itv.args] == ['start']
-            g = lp.body[0] if len(lp.body) == 1 and isinstance(lp.body[0], ast.If) else None
-            if g is not None and any(call_name(x) == 'append' and norm(x.func.value) == acc for x in ast.walk(g) if isinstance(x, ast.Call)):
-                filt = (g.test, norm(lp.target))
-        else:
-            # form 2: acc = [s for s in ansi_settings_at(start) if <cond>]
-            for s_ in blk.body:
-                if isinstance(s_, ast.Assign) and isinstance(s_.value, ast.ListComp) and len(s_.value.generators) == 1:
-                    g0 = s_.value.generators[0]
-                    itv = g0.iter
-                    srcs = {norm(x.targets[0]): x.value for x in blk.body if isinstance(x, ast.Assign) and call_name(x.value) == 'ansi_settings_at'}
-                    itv = srcs.get(norm(itv), itv)
-                    if call_name(itv) == 'ansi_settings_at' and norm(s_.value.elt) == norm(g0.target) and len(g0.ifs) == 1:
-                        acc = norm(s_.targets[0])
-                        src_ok = [norm(a) for a in itv.args] == ['start']
-                        filt = (g0.ifs[0], norm(g0.target))
-        if acc is None or filt is None:
-            R.undecided(f, blk, 'restart accumulation not recognised', construct=cons)
-        else:
-            if not src_ok:
-                problems.append('continuing settings are not taken from ansi_settings_at(start)')
-            t = canon(filt[0], al)
-            want = '__class__.%s(%s, %s.%s[start].%s) < 0' % (ro.IDFIND1, filt[1], f.self_name, ro.TABLE, ro.START)
-            if isinstance(filt[0], ast.BoolOp):
-                problems.append('restart filter %s selects a subset of the continuing settings' % short(filt[0]))
-            elif t != want and not (('.%s' % ro.START) in t and ' not in ' in t):
-                t2 = re.sub(r'%s\._\w+\(start\)' % re.escape(f.self_name), '%s.%s[start]' % (f.self_name, ro.TABLE), t)
-                if t2 != want:
-                    problems.append('restart filter is %s, expected: not among the starters of this point (by identity)' % short(filt[0]))
-            use = next((s_ for s_ in blk.body if isinstance(s_, ast.If) and norm(s_.test) == acc), None)
-            stmts = use.body if use is not None else list(blk.body)
-            stop_ok = False
-            start_how = None
-            new_list = next((norm(n.targets[0]) for n in f.walk() if isinstance(n, ast.Assign) and call_name(n.value) == ro.SCRUB), None)
-            local_env = {}
-            for s_ in stmts:
-                if isinstance(s_, ast.Assign) and isinstance(s_.targets[0], ast.Name):
-                    local_env[s_.targets[0].id] = s_.value
-                if isinstance(s_, ast.Expr) and call_name(s_.value) == 'insert_settings':
-                    a = [norm(x) for x in s_.value.args]
-                    kw = {k.arg: norm(k.value) for k in s_.value.keywords}
-                    if a[:2] == ['False', acc]:
-                        stop_ok = True
-                    elif a[:2] == ['True', acc]:
-                        tm = a[2] if len(a) > 2 else kw.get('topmost', 'True')
-                        start_how = 'append-on-top' if tm == 'True' else 'prepend-below-new'
-                elif isinstance(s_, ast.Assign) and isinstance(s_.targets[0], ast.Subscript) and canon(s_.targets[0].value, al).endswith('.' + ro.START) and norm(s_.value) == acc:
-                    sl = s_.targets[0].slice
-                    if isinstance(sl, ast.Slice):
-                        lo = norm(subst(sl.lower, local_env)) if sl.lower is not None else None
-                        hi = norm(subst(sl.upper, local_env)) if sl.upper is not None else None
-                        if lo == hi and lo == 'len(%s)' % new_list:
-                            start_how = 'slice-insert-above-new'
-                        else:
-                            start_how = 'slice %s:%s' % (lo, hi)
-                elif isinstance(s_, ast.Expr) and call_name(s_.value) == 'extend' and canon(s_.value.func.value, al).endswith('.' + ro.STOP) and norm(s_.value.args[0]) == acc:
-                    stop_ok = True
-            if not stop_ok:
-                problems.append('the restarted settings are not stopped at this point first')
-            if start_how == 'append-on-top':
-                problems.append('the restarted settings are appended on top of this point\'s START list: they override settings that *start* here '
-                                'although those had precedence before')
-            elif start_how == 'prepend-below-new':
-                problems.append('the restarted settings are inserted below the new settings, which then override them')
-            elif start_how is None:
-                problems.append('the continuing settings are stopped here but never restarted')
-            elif start_how != 'slice-insert-above-new':
-                if start_how.startswith('slice'):
-                    problems.append('the restarted settings are inserted at %s, expected directly above the new settings (position len(new settings))' % start_how)
-            R.check(not problems, f, blk, 'all continuing settings are stopped and re-inserted directly above the new ones, below this point\'s starters',
-                    '; '.join(problems), construct=cons)
-    # (b) remove_formatting at idx == end
-    f = m.fn('AnsiString.remove_formatting')
-    cons = 'remove_formatting restart'
-    loop = next((n for n in f.walk() if isinstance(n, ast.For) and call_name(n.iter) == ro.ITERATOR), None)
-    if loop is None:
-        raise AnalysisError('anchor vanished: scan loop of remove_formatting')
-    idx, point, active = [norm(x) for x in loop.target.elts]
-    # the statements that run for idx == end and not for an interior point, whatever the if / elif shape
-    Ltxt = 'len(%s.%s)' % (f.self_name, ro.TEXT)
-    extra = {'end != %s' % Ltxt: True, 'end == %s' % Ltxt: False, 'end < %s' % Ltxt: True}
-    for n_ in f.body:
-        if isinstance(n_, ast.Assign) and isinstance(n_.value, ast.List) and not n_.value.elts and isinstance(n_.targets[0], ast.Name):
-            extra[n_.targets[0].id] = True
-            extra['not ' + n_.targets[0].id] = False
-    ran = {}
-    try:
-        for region, rank in (('inside', 2), ('=end', 3)):
-            got = []
-            run_block(loop.body, merge_valuations(order_valuation({idx: rank, 'start': 1, 'end': 3}), flag_valuation({}, extra)), got.append)
-            ran[region] = got
-    except Undecided as ex:
-        R.undecided(f, loop, 'scan not interpreted: %s' % ex, construct=cons)
-        return
-    end_stmts = [s_ for s_ in ran['=end'] if not any(s_ is t_ for t_ in ran['inside'])]
-    if not end_stmts:
-        R.viol(f, loop, 'nothing is restarted at the end of the range: the removed settings stay off beyond it', construct=cons)
-        return
-    endblk = end_stmts[0]
-    problems = []
-    start_writes = []
-    stop_ext = []
-    for n in ast.walk(ast.Module(body=end_stmts, type_ignores=[])):
-        if isinstance(n, ast.AugAssign) and norm(n.target) == '%s.%s' % (point, ro.START):
-            start_writes.append(('augment', norm(n.value), n))
-        elif isinstance(n, ast.Assign) and norm(n.targets[0]) == '%s.%s' % (point, ro.START):
-            start_writes.append(('rebind', norm(n.value), n))
-        elif isinstance(n, ast.Call) and call_name(n) in ('extend', 'insert_settings') and ro.START in norm(n) and 'True' in norm(n):
-            start_writes.append(('augment', norm(n), n))
-        elif isinstance(n, ast.Call) and call_name(n) == 'extend' and norm(n.func.value) == '%s.%s' % (point, ro.START):
-            start_writes.append(('augment', norm(n.args[0]), n))
-        elif isinstance(n, ast.Call) and call_name(n) == 'extend' and norm(n.func.value) == '%s.%s' % (point, ro.STOP):
-            stop_ext.append(n)
-    if not start_writes:
-        problems.append('nothing is restarted at the end of the range: the removed settings stay off beyond it')
-    for kind, val, n in start_writes:
-        if kind == 'augment':
-            problems.append('the removed settings are appended to this point\'s START list (%s): they come back *above* every setting that continues '
-                            'through or starts at the end of the range, so the characters after the range change their displayed style' % short(n))
-        elif kind == 'rebind':
-            if val not in ('list(%s)' % active, '%s.copy()' % active, '%s[:]' % active):
-                problems.append('START is rebound to %s, expected a copy of the full active list (original order)' % val)
-            if not stop_ext:
-                problems.append('START is rebound to the full active list but the continuing settings are not stopped here first')
-            else:
-                c = stop_ext[0].args[0]
-                ok = isinstance(c, ast.ListComp) and norm(c.generators[0].iter) == active and norm(c.elt) == norm(c.generators[0].target)
-                if not ok:
-                    problems.append('the stop list is extended with %s, expected every continuing setting of the active list' % short(c))
+            allp = []
+            desc_ = None
+            for o_ in outcomes:
+                keys, left, newlen = o_['keys'], o_['left'], o_['newlen']
+                pr_ = list(o_['problems'])
+                want = {'interior': Sym({'k': 1}) + left}
+                if extend:
+                    want['origin'] = Sym(c=0)
+                    want['end'] = newlen
                 else:
-                    # continuing = active, minus what starts at this very point, minus what was removed (both by identity)
-                    tv = norm(c.generators[0].target)
-                    excl = []
-                    for cond in c.generators[0].ifs:
-                        for part in (cond.values if isinstance(cond, ast.BoolOp) and isinstance(cond.op, ast.And) else [cond]):
-                            mm = re.match(r'^__class__\.%s\(%s, (.+)\) < 0$' % (re.escape(ro.IDFIND1), re.escape(tv)), norm(part))
-                            excl.append(mm.group(1) if mm else '?' + norm(part))
-                    acc_names = {norm(x.func.value) for x in ast.walk(f.node) if isinstance(x, ast.Call) and call_name(x) == 'append' and isinstance(x.func.value, ast.Name)}
-                    want_first = '%s.%s' % (point, ro.START)
-                    if want_first not in excl:
-                        problems.append('settings that start at this very point are stopped here as well (exclusions: %s)' % excl)
-                    rest = [e for e in excl if e != want_first]
-                    if len(rest) != 1 or rest[0] not in acc_names:
-                        problems.append('the stop list must leave out exactly the point\'s own starters and the removed settings (exclusions: %s)' % excl)
-    R.check(not problems, f, endblk, 'at the end of the range every continuing setting is stopped and the full active list restarted in its original order',
-            '; '.join(problems), construct=cons)
+                    want['origin'] = left
+                    want['end'] = Sym({'old_len': 1}) + left
+                # with a symbol zeroed the old length may have been written in terms of it: compare modulo the zeroed symbols
+                for c in ('origin', 'interior', 'end'):
+                    if keys[c] != want[c]:
+                        pr_.append('%s point ends at key %r, expected %r' % (c, keys[c], want[c]))
+                if pr_:
+                    allp.append(('when %s: ' % ' and '.join(o_['region']) if o_['region'] else '') + '; '.join(pr_))
+                if desc_ is None:
+                    desc_ = 'origin -> %r, k -> %r, end -> %r (new length %r)' % (want['origin'], want['interior'], want['end'], newlen)
+            R.check(not allp, f, act, desc_ + (' in all %d regions' % len(outcomes) if len(outcomes) > 1 else ''), ' | '.join(allp[:2]), construct=cons)
 
 
 # ----------------------------------------------------------------------------------------------------------------------
